@@ -313,6 +313,12 @@ Proof.
   destruct (expire_keys s x cid (due_keys s cid (x_now x)) acc) as [s' acc']. cbn [fst] in H. rewrite IH. exact H.
 Qed.
 
+Lemma expire_keys_chk_names x cid keys : forall s acc, coll_names (fst (expire_keys_chk s x cid keys acc)) = coll_names s.
+Proof.
+  induction keys as [|k r IH]; intros s acc; cbn [expire_keys_chk]; [reflexivity|].
+  destruct (is_due (get_doc s (cid, k)) (x_now x)); rewrite IH; [apply kv_on_names | reflexivity].
+Qed.
+
 Lemma c11_step_sound s x o colls keys xn n0 n1 : store_ok s -> tables_ok s -> wf_sop o ->
   let res := sstep s x o in
   chk_step_C11 (with_next (snap s colls keys xn) n0) x o
@@ -342,6 +348,18 @@ Proof.
   - cbv zeta. cbn [chk_step_C11 os_snap sstep]. cbn [sr_store with_next sn_rows sn_colls].
     set (s' := mkStore _ _ _ _ _ _ _).
     rewrite (snap_same s' s colls keys xn eq_refl eq_refl), rows_eqb_refl, strs_eqb_refl. reflexivity.
+  - (* a sweep, as far as collection wc *)
+    cbv zeta. cbn [chk_step_C11 os_snap sstep]. destruct (coll_id s wc); [|cbn [sr_store with_next sn_colls]; apply strs_eqb_refl].
+    pose proof (expire_colls_names x (ids_before (s_colls s) wc) s []) as H.
+    destruct (expire_colls s x (ids_before (s_colls s) wc) []) as [s' evs]. cbn [fst] in H. cbn [sr_store with_next sn_colls].
+    rewrite !snap_colls, H. apply strs_eqb_refl.
+  - (* the rest of it *)
+    cbv zeta. cbn [chk_step_C11 os_snap sstep]. destruct (coll_id s wc) as [cid|]; [|cbn [sr_store with_next sn_colls]; apply strs_eqb_refl].
+    pose proof (expire_keys_chk_names x cid keys0 s []) as H1.
+    destruct (expire_keys_chk s x cid keys0 []) as [s1 evs1]. cbn [fst] in H1.
+    pose proof (expire_colls_names x (ids_after (s_colls s) wc) s1 evs1) as H2.
+    destruct (expire_colls s1 x (ids_after (s_colls s) wc) evs1) as [s2 evs2]. cbn [fst] in H2. cbn [sr_store with_next sn_colls].
+    rewrite !snap_colls, H2, H1. apply strs_eqb_refl.
 Qed.
 
 Theorem C11_kv_sound c : wf_case c -> chk_C11_kv (c, srun c) = true.
